@@ -23,19 +23,9 @@ def FindObs.ofResult : Result → FindObs
 def c17 (fs : FS) (start stop : Dir) (obs : FindObs) : Bool :=
   decide (obs = FindObs.ofResult (spec fs start stop))
 
-/-- A RELATIVE start path (not what cli/app passes, but `Find` takes any path): the climb of a relative path ends at
-    `.` — the working directory `cwd`, of which `start` is a descendant — and neither `start == stop` nor "above stop" can
-    hold between a relative and an absolute path.  Reading fixed here: the call terminates and returns the nearest regular
-    `spokfile` between `start` and the working directory (both included), else "none found". -/
-def relSpec (fs : FS) (cwd : Dir) (start : Dir) : Result :=
-  -- the candidates, nearest first: start, its parent, … down to the working directory
-  let cands := ((List.range (start.length + 1)).map fun k => start.take (start.length - k)).filter
-    fun d => cwd.isPrefixOf d
-  match cands.find? (fun d => hasSpokfile (fs d)) with
-  | some d => .found d
-  | none => .notFound
-
-def c17rel (fs : FS) (cwd start : Dir) (obs : FindObs) : Bool :=
-  decide (obs = FindObs.ofResult (relSpec fs cwd start))
+/-- a relative start (`Find.relSpec`): the call terminates and returns the nearest regular `spokfile` between start and the
+    working directory, else "none found" -/
+def c17rel (fs : FS) (cwd : Dir) (rel : List String) (obs : FindObs) : Bool :=
+  decide (obs = FindObs.ofResult (relSpec fs cwd rel))
 
 end Spok.Judge
